@@ -108,10 +108,48 @@ var migLogger = slog.New(slog.NewTextHandler(io.Discard, &slog.HandlerOptions{Le
 // case (replayable)
 
 type migCaseMod struct {
-	Dir       string `json:"dir"`
-	Version   string `json:"version"`
-	MultiRoot bool   `json:"multi_root,omitempty"`
-	NoBufYAML bool   `json:"no_buf_yaml,omitempty"`
+	Dir       string   `json:"dir"`
+	Version   string   `json:"version"`
+	MultiRoot bool     `json:"multi_root,omitempty"`
+	NoBufYAML bool     `json:"no_buf_yaml,omitempty"`
+	Name      string   `json:"name,omitempty"`
+	Deps      []string `json:"deps,omitempty"` // declared in the module's buf.yaml
+}
+
+// expectedDeps is the reference rule for the dependencies of the migrated workspace: the union of
+// the declared dependencies of all modules minus the modules of the workspace itself; a name that
+// is declared with a ref keeps it.
+func (c *migCase) expectedDeps() []string {
+	local := map[string]bool{}
+	for _, m := range c.Modules {
+		if m.Name != "" {
+			local[m.Name] = true
+		}
+	}
+	refOf := map[string]string{}
+	for _, m := range c.Modules {
+		for _, d := range m.Deps {
+			name, ref := d, ""
+			if i := strings.LastIndex(d, ":"); i > strings.LastIndex(d, "/") {
+				name, ref = d[:i], d[i+1:]
+			}
+			if local[name] {
+				continue
+			}
+			if cur, ok := refOf[name]; !ok || cur == "" {
+				refOf[name] = ref
+			}
+		}
+	}
+	out := []string{}
+	for name, ref := range refOf {
+		if ref != "" {
+			name += ":" + ref
+		}
+		out = append(out, name)
+	}
+	sort.Strings(out)
+	return out
 }
 
 type migCase struct {
@@ -126,7 +164,7 @@ type migCase struct {
 func migCaseOf(ws *migWS) *migCase {
 	c := &migCase{Kind: "migration", Layout: ws.Layout, Files: ws.migRender(false), Against: ws.migRender(true)}
 	for _, m := range ws.Modules {
-		c.Modules = append(c.Modules, migCaseMod{Dir: m.Dir, Version: m.Version, MultiRoot: len(m.Roots) > 1, NoBufYAML: m.NoBufYAML})
+		c.Modules = append(c.Modules, migCaseMod{Dir: m.Dir, Version: m.Version, MultiRoot: len(m.Roots) > 1, NoBufYAML: m.NoBufYAML, Name: m.Name, Deps: m.Deps})
 	}
 	switch ws.Layout {
 	case "work":
@@ -712,8 +750,24 @@ func migOracle(tb evid.TB, env *migEnv, c *migCase, st *migStats) (string, strin
 		return "migration:no-v2-buf-yaml", fmt.Sprintf("no buf.yaml at the workspace root after migration: %v", err)
 	}
 	st.migratedYAML = string(data)
-	if f, err := bufconfig.ReadBufYAMLFile(bytes.NewReader(data), "buf.yaml"); err != nil || f.FileVersion() != bufconfig.FileVersionV2 {
+	migrated, err := bufconfig.ReadBufYAMLFile(bytes.NewReader(data), "buf.yaml")
+	if err != nil || migrated.FileVersion() != bufconfig.FileVersionV2 {
 		return "migration:no-v2-buf-yaml", fmt.Sprintf("buf.yaml at the workspace root after migration is not a readable v2 file (err=%v):\n%s", err, data)
+	}
+	gotDeps := []string{}
+	for _, ref := range migrated.ConfiguredDepModuleRefs() {
+		gotDeps = append(gotDeps, ref.String())
+	}
+	sort.Strings(gotDeps)
+	if want := c.expectedDeps(); !migEqualStrings(gotDeps, want) {
+		key := "migration:deps-differ"
+		if c.onlyExtraDepsOnSplitNamedModules(gotDeps, want) {
+			// input shape: a sibling declares a dep on a NAMED v1beta1 module with several roots; the
+			// migrator turns that module into unnamed modules (documented) and then no longer recognises
+			// the dep as a workspace module
+			key = "migration:dep-on-split-multi-root-sibling-kept"
+		}
+		return key, fmt.Sprintf("deps of the migrated buf.yaml are %q; the declared dependencies of the workspace minus its own modules are %q\nmigrated buf.yaml:\n%s", gotDeps, want, data)
 	}
 	var left []string
 	if _, err := os.Stat(filepath.Join(W, "buf.work.yaml")); err == nil {
@@ -828,6 +882,36 @@ func migOracle(tb evid.TB, env *migEnv, c *migCase, st *migStats) (string, strin
 	return "", ""
 }
 
+// onlyExtraDepsOnSplitNamedModules: got = want + deps that name a named multi-root module of the workspace.
+func (c *migCase) onlyExtraDepsOnSplitNamedModules(got, want []string) bool {
+	wantSet := map[string]bool{}
+	for _, w := range want {
+		wantSet[w] = true
+	}
+	split := map[string]bool{}
+	for _, m := range c.Modules {
+		if m.Name != "" && m.MultiRoot {
+			split[m.Name] = true
+		}
+	}
+	extra := 0
+	for _, g := range got {
+		if wantSet[g] {
+			delete(wantSet, g)
+			continue
+		}
+		name := g
+		if i := strings.LastIndex(g, ":"); i > strings.LastIndex(g, "/") {
+			name = g[:i]
+		}
+		if !split[name] {
+			return false
+		}
+		extra++
+	}
+	return extra > 0 && len(wantSet) == 0
+}
+
 func migEqualStrings(a, b []string) bool {
 	if len(a) != len(b) {
 		return false
@@ -855,6 +939,22 @@ func migClasses(r *evid.Recorder, ws *migWS, st *migStats) {
 		}
 		if m.Name != "" {
 			r.Class("mig-module-named")
+		}
+		for _, d := range m.Deps {
+			sibling := false
+			for _, o := range ws.Modules {
+				if o != m && o.Name != "" && (d == o.Name || strings.HasPrefix(d, o.Name+":")) {
+					sibling = true
+					if o.Dir > m.Dir {
+						r.Class("mig-dep-on-sibling-in-later-directory")
+					} else {
+						r.Class("mig-dep-on-sibling-in-earlier-directory")
+					}
+				}
+			}
+			if !sibling {
+				r.Class("mig-dep-external")
+			}
 		}
 		if len(m.Roots) == 1 {
 			r.Class("mig-has-1-root")
@@ -1068,6 +1168,26 @@ func migDirectedCases() []migDirected {
 				c := single("v1beta1", y)
 				c.Against["a/v1/a.proto"] = "syntax = \"proto3\";\n\npackage a.v1old;\n\nmessage foo_bar {\n  string bar = 1;\n}\n"
 				return c
+			}()},
+		{"migration:dep-on-split-multi-root-sibling-kept", "a declared dep on a named multi-root v1beta1 sibling survives migration because the sibling's name is dropped when its roots become separate modules",
+			func() migCase {
+				const w = "version: v1\ndirectories:\n  - a\n  - b\n"
+				const ya = "version: v1\ndeps:\n  - buf.build/acme/b\n"
+				const yb = "version: v1beta1\nname: buf.build/acme/b\nbuild:\n  roots:\n    - x\n    - y\n"
+				pkg := func(p string) string {
+					return "syntax = \"proto3\";\n\npackage " + p + ".v1;\n\nmessage Foo {\n  string bar = 1;\n}\n"
+				}
+				files := map[string]string{"buf.work.yaml": w, "a/buf.yaml": ya, "b/buf.yaml": yb,
+					"a/a/v1/a.proto": pkg("a"), "b/x/bx/v1/bx.proto": pkg("bx"), "b/y/by/v1/by.proto": pkg("by")}
+				against := map[string]string{}
+				for k, v := range files {
+					against[k] = v
+				}
+				return migCase{
+					Kind: "migration", Layout: "work", Inputs: []string{"."},
+					Modules: []migCaseMod{{Dir: "a", Version: "v1", Deps: []string{"buf.build/acme/b"}}, {Dir: "b", Version: "v1beta1", MultiRoot: true, Name: "buf.build/acme/b"}},
+					Files:   files, Against: against,
+				}
 			}()},
 		{"migration:no-buf-yaml-module-gets-v2-defaults", "a workspace directory without buf.yaml gets the v2 default rules instead of the v1 ones",
 			migCase{
